@@ -741,10 +741,32 @@ func (bch *blockCursorHeap) pushCursors(cursors []*blockCursor) {
 	}
 }
 
-// merge performs heap-based merge similar to query_by_ts.go.
-// It returns a QueryResponse along with a flag indicating whether the merge
-// stopped because the MaxBatchSize limit has been reached.
+// scanBound is the key up to which the heap may be drained while the block scan is still running:
+// blocks arrive ordered by minKey (ASC) or by maxKey (DESC), so blocks that were not scanned yet can only
+// hold keys on the far side of the bound of the last scanned block. Elements beyond the bound stay in the
+// heap until later blocks have been pushed. The zero value means "no bound" (the scan is complete).
+type scanBound struct {
+	key int64
+	set bool
+}
+
+func (sb scanBound) holdsBack(key int64, asc bool) bool {
+	if !sb.set {
+		return false
+	}
+	if asc {
+		return key > sb.key
+	}
+	return key < sb.key
+}
+
+// merge performs heap-based merge similar to query_by_ts.go and drains the heap.
 func (bch *blockCursorHeap) merge(ctx context.Context, batchSize int, resultsCh chan<- *QueryResponse, metrics *batchMetrics) error {
+	return bch.mergeUpTo(ctx, batchSize, resultsCh, metrics, scanBound{})
+}
+
+// mergeUpTo performs heap-based merge and emits the elements that are not held back by bound.
+func (bch *blockCursorHeap) mergeUpTo(ctx context.Context, batchSize int, resultsCh chan<- *QueryResponse, metrics *batchMetrics, bound scanBound) error {
 	if !bch.initialized || bch.Len() == 0 {
 		return nil
 	}
@@ -770,6 +792,9 @@ func (bch *blockCursorHeap) merge(ctx context.Context, batchSize int, resultsCh 
 		if topBC.idx < 0 || topBC.idx >= len(topBC.userKeys) {
 			heap.Pop(bch)
 			continue
+		}
+		if bound.holdsBack(topBC.userKeys[topBC.idx], bch.asc) {
+			break
 		}
 
 		// Check for duplicate data before copying via hash + bytes.Equal on collisions
@@ -849,6 +874,10 @@ func (bch *blockCursorHeap) merge(ctx context.Context, batchSize int, resultsCh 
 }
 
 func (bch *blockCursorHeap) mergeSync(ctx context.Context, batchSize int, metrics *batchMetrics) ([]*QueryResponse, error) {
+	return bch.mergeSyncUpTo(ctx, batchSize, metrics, scanBound{})
+}
+
+func (bch *blockCursorHeap) mergeSyncUpTo(ctx context.Context, batchSize int, metrics *batchMetrics, bound scanBound) ([]*QueryResponse, error) {
 	if !bch.initialized || bch.Len() == 0 {
 		return nil, nil
 	}
@@ -875,6 +904,9 @@ func (bch *blockCursorHeap) mergeSync(ctx context.Context, batchSize int, metric
 		if topBC.idx < 0 || topBC.idx >= len(topBC.userKeys) {
 			heap.Pop(bch)
 			continue
+		}
+		if bound.holdsBack(topBC.userKeys[topBC.idx], bch.asc) {
+			break
 		}
 
 		currentData := topBC.data[topBC.idx]
